@@ -415,6 +415,16 @@ func C13(e *Env) {
 			if err := host.Probe(t.p.HostPort()); err != nil {
 				run.Violate("not-serving", sc.Name, fmt.Sprintf("[%s, %s] fresh connection not served afterwards: %v", sc.Name, pl.desc, err), wit)
 			}
+			// the fault is over: a new connection replaying the scenario must get the fault-free answers
+			// again (nothing the fault produced may have been remembered)
+			if !sc.Write {
+				if out := c13RunFaulted(e, t, sc, res.Resp, "healthy replay after: "+pl.desc); out != "same" && out != "violation" && out != "hang" {
+					run.Violate("fault-remembered", sc.Name, fmt.Sprintf("[%s] after the fault (%s) was gone, a fresh connection replaying the scenario did not get the fault-free answers (first deviation: %s)", sc.Name, pl.desc, out), wit)
+				}
+				if rep2, sconn2, err := t.quiesce(); err == nil && (len(rep2.Open) > 0 || sconn2 != 0) {
+					run.Violate("leak", sc.Name+": healthy replay", fmt.Sprintf("[%s] healthy replay after %s left %d handles open", sc.Name, pl.desc, len(rep2.Open)), wit)
+				}
+			}
 		}
 	}
 	run.Obs("fault_runs", totalFaultRuns)
@@ -430,7 +440,9 @@ func C13(e *Env) {
 			}
 		}
 	}
-	run.Floor(run.Counter("planned_faults_not_reached") == 0, fmt.Sprintf("%d planned single faults were never reached", run.Counter("planned_faults_not_reached")))
+	// an implementation may legitimately do fewer operations in a later run (caches): unreached
+	// planned faults are reported, and only a large share of them means the enumeration is broken
+	run.Floor(run.Counter("planned_faults_not_reached")*5 <= int64(totalFaultRuns), fmt.Sprintf("%d of %d planned faults were never reached", run.Counter("planned_faults_not_reached"), totalFaultRuns))
 }
 
 func trimPaths(p []string, root string) []string {
